@@ -34,7 +34,42 @@ func main() {
 			*tier = t
 		}
 	}
+	if prop == "ALL" {
+		os.Exit(runAll(*tier, *repo, *verif))
+	}
 	os.Exit(run(prop, *tier, *repo, *verif))
+}
+
+// runAll loads the target once and applies the rules of every property (tooling only: regression over many
+// variants; the registered commands always run one property per process).
+func runAll(tier, repo, verif string) int {
+	p, err := core.Load(repo, tier == "thorough")
+	if err != nil {
+		fmt.Println("LOAD-ERROR", err)
+		return 2
+	}
+	var fired []string
+	for _, id := range rules.IDs() {
+		func() {
+			r := core.NewRun(id, tier, verif, p)
+			defer func() {
+				if e := recover(); e != nil {
+					r.Fail("INTERNAL", "checker-panic", token.NoPos, fmt.Sprintf("checker panicked: %v", e))
+					r.Finish()
+					fired = append(fired, id)
+				}
+			}()
+			rules.Get(id)(r)
+			if r.Finish() != 0 {
+				fired = append(fired, id)
+			}
+		}()
+	}
+	fmt.Printf("FIRED=[%s]\n", strings.Join(fired, " "))
+	if len(fired) > 0 {
+		return 1
+	}
+	return 0
 }
 
 func isFlagSet(name string) bool {
